@@ -151,6 +151,9 @@ fn check_text(name: &str, text: &str, others: &[(String, String)], f: &mut Findi
         f.v.push(("bad-range:definition".into(), format!("definition of `{name_text}` at {} is {} (outside the text or inverted)", fmt_loc(l), fmt_loc(&d))));
       }
     }
+    if name_text == "this" {
+      continue; // the binding of `this` is implicit: the server answers with the enclosing class
+    }
     if let Ok(refs) = pool::catch(AssertUnwindSafe(|| query::all_references(&state, &m, p))) {
       for r in refs {
         if r.module_reference != m {
